@@ -43,22 +43,31 @@ Definition gives_up_with (o : option rmw_outcome) (recd : list (Z * Z)) : bool :
   | Some (NoCommit _ xs) | Some (Restart xs) => ops_match (aops_word xs) recd
   | _ => false
   end.
-Definition applies (fn : Z) (cands : list (list Z)) (old : Z) : bool :=
-  existsb (fun ps => match dqstate_apply fn ps old with Some _ => true | None => false end) cands.
+(* search of the parameter space: the checker passes one list of admissible values per parameter (in the order dqstate_apply
+   wants them); the product is formed here, so a case costs the sum of the axis lengths to write down and parse, not
+   their product *)
+Fixpoint ex_prod (axes : list (list Z)) (acc : list Z) (good : list Z -> bool) : bool :=
+  match axes with
+  | [] => good (rev acc)
+  | a :: r => existsb (fun x => ex_prod r (x :: acc) good) a
+  end.
+Definition fits (fn : Z) (axes : list (list Z)) (old : Z) : bool :=
+  match dqstate_apply fn (map (fun a => hd 0 a) axes) old with Some _ => true | None => false end.
 
 (* verdicts: 0 no generated function for this line and kind (coverage hole); 1 conforms; 2 a function exists but no
-   admissible parameter vector makes it produce the recorded result; 3 the parameter vectors do not fit the function
-   (table and checker disagree on its parameters) *)
-Definition verdict (fns : list Z) (cands : list (list Z)) (old : Z) (good : option rmw_outcome -> bool) : Z :=
+   admissible parameter vector makes it produce the recorded result; 3 the number of parameters does not fit the function
+   (table and checker disagree); 4 a parameter has no admissible value at all (empty axis) *)
+Definition verdict (fns : list Z) (axes : list (list Z)) (old : Z) (good : option rmw_outcome -> bool) : Z :=
   match fns with
   | [] => 0
-  | _ => if existsb (fun fn => existsb (fun ps => good (dqstate_apply fn ps old)) cands) fns then 1
-         else if existsb (fun fn => applies fn cands old) fns then 2 else 3
+  | _ => if existsb (fun a => match a with [] => true | _ => false end) axes then 4
+         else if existsb (fun fn => ex_prod axes [] (fun ps => good (dqstate_apply fn ps old))) fns then 1
+         else if existsb (fun fn => fits fn axes old) fns then 2 else 3
   end.
 
 (* one iteration that reached its compare-and-swap / one single atomic operation: old -> new *)
-Definition check_commit (file line kind old new : Z) (cands : list (list Z)) : Z :=
-  verdict (site_fns file line kind) cands old (fun o => commits_to o new).
+Definition check_commit (file line kind old new : Z) (axes : list (list Z)) : Z :=
+  verdict (site_fns file line kind) axes old (fun o => commits_to o new).
 (* one loop instance left without a store after reading old, having performed recd on dq_state on the way out *)
-Definition check_giveup (file line kind old : Z) (recd : list (Z * Z)) (cands : list (list Z)) : Z :=
-  verdict (site_fns file line kind) cands old (fun o => gives_up_with o recd).
+Definition check_giveup (file line kind old : Z) (recd : list (Z * Z)) (axes : list (list Z)) : Z :=
+  verdict (site_fns file line kind) axes old (fun o => gives_up_with o recd).
